@@ -9,6 +9,7 @@ import (
 	"context"
 	"fmt"
 	"math"
+	"math/rand"
 	"sort"
 	"sync"
 	"sync/atomic"
@@ -348,6 +349,9 @@ func c18Stress(c *fw.Ctx) {
 	var inserted int64
 	stop := make(chan struct{})
 	var wg sync.WaitGroup
+	// the goroutines below must not share the case's PRNG
+	flushRand := rand.New(rand.NewSource(r.Int63()))
+	nScanners := 4 + r.Intn(5)
 	wg.Add(1)
 	go func() {
 		defer wg.Done()
@@ -367,12 +371,11 @@ func c18Stress(c *fw.Ctx) {
 			select {
 			case <-stop:
 				return
-			case <-time.After(time.Duration(3+r.Intn(5)) * time.Millisecond):
+			case <-time.After(time.Duration(3+flushRand.Intn(5)) * time.Millisecond):
 				db.FlushAll()
 			}
 		}
 	}()
-	nScanners := 4 + r.Intn(5)
 	type finding struct {
 		sig, detail string
 	}
@@ -401,6 +404,7 @@ func c18Stress(c *fw.Ctx) {
 				}
 				present := map[int]bool{}
 				svI := res.Field("sv")
+				cvI, mvI, avI, pI := res.Field("cv"), res.Field("mv"), res.Field("av"), res.Field("_points")
 				bad := false
 				for i := range res.Rows {
 					row := &res.Rows[i]
@@ -419,6 +423,15 @@ func c18Stress(c *fw.Ctx) {
 					}
 					for _, j := range digits {
 						present[(period*K+kn)*30+j] = true
+					}
+					// a point is reflected in all fields of its row or in none
+					if n := float64(len(digits)); n > 0 {
+						wantMax := math.Pow(3, float64(digits[len(digits)-1]))
+						if row.Vals[cvI] != n || row.Vals[pI] != n || row.Vals[mvI] != wantMax || math.Abs(row.Vals[avI]-row.Vals[svI]/n) > 1e-6*row.Vals[svI] {
+							findings <- finding{"c18-stress-fields-disagree", fmt.Sprintf("scanner %d: row key=%s period=%d: SUM decodes to %d ids but COUNT=%v _points=%v MAX=%v (expected %v) AVG=%v: a point is reflected in some fields of the row and not in others", s, key, period, len(digits), row.Vals[cvI], row.Vals[pI], row.Vals[mvI], wantMax, row.Vals[avI])}
+							bad = true
+							break
+						}
 					}
 				}
 				if bad {
